@@ -240,6 +240,7 @@ CONSTANTS
  Ignored <- MCIgnored
  Defaults <- MCDefaults
 INVARIANT Conforms
+INVARIANT WarnOK
 CHECK_DEADLOCK FALSE
 """
 
@@ -248,7 +249,7 @@ def strip_trace(tr):
     return [{k: v for k, v in ev.items() if not k.startswith('_')} for ev in tr]
 
 
-def judge_traces(ctx, variant, enforce_new, traces, timeout=3000, overwrite=True):
+def judge_traces(ctx, variant, enforce_new, traces, timeout=3000, overwrite=True, _canary=True):
     """returns list of (trace index, why, step) for rejected traces"""
     import json
     import os
@@ -256,6 +257,11 @@ def judge_traces(ctx, variant, enforce_new, traces, timeout=3000, overwrite=True
     import tempfile
     if not traces:
         return []
+    if _canary:
+        from harness import canary
+        from checks import canaries
+        canary.probe(ctx, 'Trace_Loader', traces, canaries.loader_trace,
+                     lambda trs: {i for i, _, _ in judge_traces(canary.NullCtx(), variant, enforce_new, trs, timeout, overwrite, _canary=False)}, k=8)
     fd, path = tempfile.mkstemp(prefix='verif_traces_', suffix='.json')
     try:
         with os.fdopen(fd, 'w') as f:
@@ -271,7 +277,11 @@ def judge_traces(ctx, variant, enforce_new, traces, timeout=3000, overwrite=True
         raise tlc.TLCError('Trace_Loader: %d states for %d events+starts: some trace was not consumed to its end\n%s'
                            % (res.distinct, want, res.out[-1500:]))
     bad = {}
+    nwarn = 0
     for v in res.violations:
+        if v['name'] == 'WarnOK':
+            nwarn += 1
+            continue
         if v['name'] != 'Conforms':
             raise tlc.TLCError('unexpected violation %s\n%s' % (v['name'], v['text'][:1500]))
         # last state of the printed behaviour
@@ -281,6 +291,8 @@ def judge_traces(ctx, variant, enforce_new, traces, timeout=3000, overwrite=True
         cid = int(cids[-1])
         if cid not in bad or int(ls[-1]) < bad[cid][1]:
             bad[cid] = (whys[-1], int(ls[-1]))
+    if nwarn:
+        ctx.note('MODEL-DRIFT (not a listed property): in %d states of %s traces the deprecation warnings of a load differ from the specified ones' % (nwarn, variant))
     return [(cid - 1, w, l) for cid, (w, l) in sorted(bad.items())]
 
 
